@@ -359,8 +359,9 @@ class Responder():
         if u'date' not in self.headers:  # create Date header
             self.headers[u'date'] = httping.httpDate1123(datetime.datetime.now(datetime.UTC))
 
-        if self.chunkable and ('transfer-encoding' not in self.headers or
-                               self.headers['transfer-encoding'] == 'chunked'):
+        if (self.chunkable and self.length is None and
+                ('transfer-encoding' not in self.headers or
+                 self.headers['transfer-encoding'] == 'chunked')):
             self.chunked = True
             self.headers[u'transfer-encoding'] = u'chunked'
 
@@ -428,8 +429,7 @@ class Responder():
 
         if u'content-length' in self.headers:
             self.length = int(self.headers['content-length'])
-            self.chunkable = False  # cannot use chunking with finite content-length
-        else:
+        else:  # cannot use chunking with finite content-length see .build
             self.length = None
 
             if u'content-type' in self.headers:
